@@ -18,6 +18,8 @@ U = dict(
     writev=dict(name="c16_writev", bounded=BV, timeout=2400),
     recvmsg=dict(name="c16_recvmsg", bounded=BV, timeout=2400),
     sendmsg=dict(name="c16_sendmsg", bounded=BV, timeout=2400),
+    readv3=dict(name="c16_readv3", bounded="<= 3 kernel answers, 3 iovecs x <= 2 bytes", timeout=2400),
+    writev3=dict(name="c16_writev3", bounded="<= 3 kernel answers, 3 iovecs x <= 2 bytes", timeout=2400),
     accept=dict(name="c18_accept", bounded="<= 4 kernel answers"),
     connect=dict(name="c18_connect", bounded="<= 3 wait rounds"),
 )
